@@ -38,8 +38,9 @@ func init() {
 			{ID: "X4", Floor: 4, Doc: "Action marshal/unmarshal symmetry on type, old, new, embedded element", Run: c04X4},
 			{ID: "X5", Floor: 2, Doc: "Date: one layout both ways, written and read as text", Run: c04X5},
 			{ID: "X6", Floor: 14, Doc: "an element is skipped only when its value is absent; a nil block writes and dereferences nothing (4 roots + 5 blocks written, 5 blocks absent)", Run: c04X6},
+			{ID: "X7", Floor: 3, Doc: "every XML marshaler (MarshalXML / MarshalXMLAttr / MarshalText) of the package has a value receiver, so that it is in the method set of T and *T and a value that is not addressable is still written in the documented form (5 today)", Run: c04X7},
 		},
-		Mutants: c04Mutants,
+		Mutants: append(c04Mutants, core.Mutant{Name: "x7-date-marshalxml-pointer-receiver", File: "note.go", Find: "func (d Date) MarshalXML(", Replace: "func (d *Date) MarshalXML(", ExpectRule: "X7", ExpectConstruct: "receiver@Date.MarshalXML"}),
 		Benign:  c04Benign,
 	})
 }
